@@ -10,11 +10,12 @@ from moptipy.evaluation.base import (
     EvaluationDataElement,
 )
 from moptipy.evaluation.end_results import EndResult
-from moptipy.evaluation.end_statistics import CsvReader as EsCsvReader
-from moptipy.evaluation.end_statistics import CsvWriter as EsCsvWriter
 from moptipy.evaluation.end_statistics import (
+    KEY_N_SUCCESS,
     EndStatistics,
 )
+from moptipy.evaluation.end_statistics import CsvReader as EsCsvReader
+from moptipy.evaluation.end_statistics import CsvWriter as EsCsvWriter
 from moptipy.evaluation.end_statistics import (
     from_end_results as es_from_end_results,
 )
@@ -360,6 +361,8 @@ class CsvWriter:
         self.__setup: bool = False
         #: the end statistics writer
         self.__es: Final[EsCsvWriter] = EsCsvWriter(scope)
+        #: the index of the column with the number of successful runs
+        self.__idx_n_success: int | None = None
         #: the bin bounds
         self.__bin_bounds: list[str] | None = None
         #: the objectives
@@ -384,6 +387,10 @@ class CsvWriter:
 
         data = reiterable(data)
         self.__es.setup(pr.end_statistics for pr in data)
+        es_titles: Final[list[str]] = list(self.__es.get_column_titles())
+        n_success_key: Final[str] = csv_scope(self.scope, KEY_N_SUCCESS)
+        if n_success_key in es_titles:
+            self.__idx_n_success = es_titles.index(n_success_key)
 
         bin_bounds_set: Final[set[str]] = set()
         objectives_set: Final[set[str]] = set()
@@ -436,7 +443,15 @@ class CsvWriter:
         :param data: the end result record
         :returns: the iterable with the row text
         """
-        yield from self.__es.get_row(data.end_statistics)
+        es_row: Final[list[str]] = list(
+            self.__es.get_row(data.end_statistics))
+        if (self.__idx_n_success is not None) and (
+                data.end_statistics.n_success is None):
+            # If only some records have a goal objective value, the end
+            # statistics writer renders the undefined number of successful
+            # runs of the others as `str(None)`, which no reader can parse.
+            es_row[self.__idx_n_success] = ""
+        yield from es_row
         yield repr(data.bin_height)
         yield repr(data.bin_width)
         yield repr(data.n_items)
